@@ -7,7 +7,7 @@ CONSTANTS
   UserSharing = TRUE
   ManualReset = FALSE
   UserNoPrecalc = FALSE
-  Hows = {"coef", "slice", "utility", "periodic", "aonly", "bonly", "conly"}
+  Hows = {"coef", "slice", "utility", "periodic", "view", "aonly", "bonly", "conly"}
   BuildKinds = {"diffusionTerm", "transientTerm", "gradientTerm", "boundaryConditionsTerm"}
 INVARIANT Emit
 INVARIANT TypeOK
